@@ -113,6 +113,26 @@ def apply(cfg):
     return net
 
 
+def stagger(net, cfg):
+    """level qstag (BalanceDef): place the limit of g2 between its reactive output at the set points (all gens inside or at wide
+    limits) and its output once the gens of bus 1 sit at their tight limits, on the side it moves to.  Two auxiliary power flows
+    with the options of the case; returns True when the limits could be staggered (the outputs differ by more than 0.02 Mvar)."""
+    if not (cfg.get("qstag") and cfg["qtight"] and cfg["qlims"] and cfg["g0"] and cfg["g2"] and cfg["mode"] == "ac"):
+        return False
+    a = copy.deepcopy(net)
+    a.gen["min_q_mvar"], a.gen["max_q_mvar"] = -50.0, 50.0
+    b = copy.deepcopy(net)
+    b.gen.at[2, "min_q_mvar"], b.gen.at[2, "max_q_mvar"] = -50.0, 50.0
+    if not solve(a, dict(cfg, qlims=False))[0] or not solve(b, cfg)[0]:
+        return False
+    qa, qb = float(a.res_gen.at[2, "q_mvar"]), float(b.res_gen.at[2, "q_mvar"])
+    if not abs(qb - qa) > 0.02:
+        return False
+    mid = round((qa + qb) / 2, 4)
+    net.gen.at[2, "min_q_mvar"], net.gen.at[2, "max_q_mvar"] = (-50.0, mid) if qb > qa else (mid, 50.0)
+    return True
+
+
 def solve(net, cfg):
     import pandapower as pp
     try:
@@ -140,6 +160,7 @@ def _v(df, i, col, scale=1e6):
 def observe(cfg):
     """one case: cfg + inputs + result tables (fixed point)"""
     net = apply(cfg)
+    stag = stagger(net, cfg)
     conv, err = solve(net, cfg)
     out = {"cfg": cfg, "conv": conv, "err": err, "node": {}, "term": {}, "pl": {}, "ql": {}, "bus": {}, "inp": {}}
     zero = {"p": 0, "q": 0}
@@ -177,6 +198,7 @@ def observe(cfg):
         sh_p, sh_q = 0.03 / 2, -0.7 / 2
     inp["sh0"] = {"p": fx(sh_p), "q": fx(sh_q), "step": int(net.shunt.at[0, "step"]),
                   "vn": int(round(net.shunt.at[0, "vn_kv"] * 10)), "vnbus": int(round(net.bus.at[1, "vn_kv"] * 10))}
+    inp["stag"] = bool(stag)
     inp["xw0"] = {"p": fx(net.xward.at[0, "ps_mw"]), "w": int(net.xward.at[0, "slack_weight"])}
     return out
 
